@@ -134,7 +134,7 @@ def run_lifetime(prop, lt, repo, tier, results=None, deadline=None, stop_on_viol
                 past_start = j
                 if table is not None:
                     node.call({"prop": prop, "set_table": table})
-            res = node.call({"prop": prop, "plan": seg, "job": j, "detail": detail})
+            res = node.call({"prop": prop, "plan": seg, "job": j, "detail": detail, "timeout": 30 if tier == "quick" else 60})
             if res is None:
                 out[j] = {"status": "harness_error", "where": "node-died"}
                 node = None
